@@ -29,8 +29,8 @@ CONFIGS = {
         "level": "fault_enumeration",
         "rule": "one run = one synthetic ruleset (tie-heavy pools, <= 250 pre-terminals) x flags; U = uninterrupted stream through "
                 "pcfg_guesser.main(); histories = sequences of quit points (k-th pop, or a quit already pending when the process starts / restores) each followed "
-                "by a --load cycle in a new process image with only S.sav surviving; quick: 5 sampled histories of 1-4 cuts; thorough: every single cut k=1..|U| plus 8 "
-                "sampled multi-cycle histories; plus retrain-between-quit-and-resume (uuid) probes; oracle RefResume (nothing needed is "
+                "by a --load cycle in a new process image with only S.sav surviving; quick: every single cut k=1..|U| when |U| <= 24, plus 5 sampled histories of 1-4 cuts; thorough: every single "
+                "cut of every world, every third followed by a pending quit, plus 8 sampled multi-cycle histories; plus retrain-between-quit-and-resume (uuid) probes; oracle RefResume (nothing needed is "
                 "lost, non-increasing, nothing above the saved probability, repeats only at exactly the saved probability); "
                 "non-trivial = world with >= 2 pre-terminals of exactly equal probability (so cuts land in tie groups); "
                 "distinct = distinct (ruleset, flags, cut sequences)",
@@ -45,8 +45,8 @@ CONFIGS = {
         "rule": "one run = synthetic ruleset with an M structure + synthetic OMEN model whose listed levels hold 2..400 strings; "
                 "A = quit right after the j-th guess of a Markov level; B = --load in a new process image (empty memo table, "
                 "optimizer size drawn per process); tail = 0-3 further cycles (quit at a pop, pending at start, inside the restored remainder, "
-                "inside a later level); quick: 4 sampled (level, j, tail) histories incl. j=1 and j=n; thorough: every j=1..n "
-                "(<= 80 per level) plus sampled tails; oracle: restored remainder = exactly the missing strings of the level "
+                "inside a later level); quick: every j of one level of <= 24 strings plus 4 sampled (level, j, tail) histories incl. j=1 and j=n; "
+                "thorough: the first three levels, every j up to 80 strings (80 strided positions and both ends beyond) with tails; oracle: restored remainder = exactly the missing strings of the level "
                 "(multiset), never replayed by later cycles, rest of the run satisfies the C08 oracle; "
                 "non-trivial = quit strictly inside a level (0 < j < n); distinct = distinct (world, history)",
         "components": _COMPONENTS,
@@ -240,6 +240,7 @@ def run_history(res, U, triggers, flags, wr, knob_tape=None):
         if knob_tape is not None:
             knobs = {"optimizer_max_length": knob_tape.draw(7)}
         r = run_cycle(flags, load=cyc > 0, trigger=trig, knobs=knobs)
+        res.sim_seconds += r.ctx.clock.now
         problem = oracle.cycle(r, wr)
         seg.append((len(r.emitted), len(r.remainder), r.ctx.fired_in if r.ctx.fired else "end"))
         if problem:
@@ -285,8 +286,12 @@ def run_c08(tape, tier, res):
         res.rejected = "tiny_stream"
         return
     histories = []
-    if tier == "thorough":
+    if tier == "thorough" or n <= 24:
+        # fault enumeration: every single cut point of this world
         histories.extend([[("pop", k)] for k in range(1, n + 1)])
+        res.stats["worlds_with_every_cut_enumerated"] += 1
+        res.stats["cut_points_enumerated"] += n
+    if tier == "thorough":
         histories.extend([[("pop", k), ("start",)] for k in range(1, n + 1, 3)])
         nmulti = 8
     else:
@@ -429,10 +434,21 @@ def run_c15(tape, tier, res):
             if len(js) > 80:
                 step = len(js) / 80.0
                 js = sorted({js[int(i * step)] for i in range(80)} | {1, 2, n - 1, n})
+            else:
+                res.stats["levels_with_every_position_enumerated"] += 1
+            res.stats["quit_positions_enumerated"] += len(js)
             for j in js:
                 histories.append([("omen", m, j)] + (tail() if j % 3 == 0 else [("pop", 1)] if j % 3 == 1 else []))
         nsample = 6
     else:
+        # quick tier: every position of one small level (fault enumeration inside the sampled world), then samples
+        small = [(m, e) for m, e in usable if len(e["lines"]) <= 24]
+        if small:
+            m, e = small[t.draw(len(small))]
+            for j in range(1, len(e["lines"]) + 1):
+                histories.append([("omen", m, j)])
+            res.stats["levels_with_every_position_enumerated"] += 1
+            res.stats["quit_positions_enumerated"] += len(e["lines"])
         nsample = 4
     for s in range(nsample):
         m, e = usable[t.draw(len(usable))]
